@@ -7,7 +7,7 @@ CLAUSES = ["atmost3", "members", "measured", "ascending"]
 
 def run(ck):
     ck.rule = ("TLC enumerates every sequence (in address order) of up to MaxNodes connected gateways over the measurement kinds {none, only "
-               "stale samples, recent average 10/20/30 (one or two samples), stale low sample + recent sample}, proves that 'first three, then the "
+               "stale samples, recent average 10/20/30 (one or two samples), 10.2 / 10.4 (less than a millisecond apart), stale low sample + recent sample}, proves that 'first three, then the "
                "stable sort as coded' meets the statement, and the lists returned by the real getConnectedNodes (real rtt.Instrumentation on a "
                "controlled clock, seeded sample ages and addresses) are judged by the NodesDecl predicate in TLC; a client built without a recorder (every node unmeasured) is asked with 0..MaxNodes+2 connections; non-trivial = at least two "
                "nodes of different kinds, or more than three nodes")
@@ -67,5 +67,5 @@ def run(ck):
         ck.notes.append("%d returned lists are shorter than min(3, connected) (the statement only bounds the length from above; not judged)" % short)
     ck.assumptions += ["rtt/rtt.go is built from an overlay copy generated from the working-tree file with time.Now/time.Since routed to a clock the "
                        "driver sets; stale = 11 s, 1 min or 1 h old, recent = 0..9 s old (the 10 s boundary itself is not generated)",
-                       "averages are well separated (10/20/25/30 ms) so Duration truncation cannot reorder them; equal averages are ties (free)",
+                       "averages are 10 / 10.2 / 10.4 / 20 / 25 / 30 ms (the closest pair 200 us apart, far above Duration truncation); equal averages are ties (free)",
                        "which three of more than three connected gateways are used is not fixed by the statement and not judged"]
